@@ -1,15 +1,15 @@
 #!/bin/bash
 # usage: scripts/seed_check.sh <seed dir name> [property]  - re-runs a property's check against a scratch copy of the
-# current /repo working tree with the seeded patch applied (copy removed afterwards)
+# current /repo working tree (or of $SEED_SRC, a snapshot of it) with the seeded patch applied (copy removed afterwards)
 set -u
 ID="$1"; PROP="${2:-${ID%%-*}}"
 . /verif/env.sh
 D=$(mktemp -d /tmp/sk-XXXXXX)
 trap 'rm -rf "$D"' EXIT
-rsync -a --exclude .git /repo/ "$D/repo/"
+rsync -a --exclude .git "${SEED_SRC:-/repo}/" "$D/repo/"
 ( cd "$D/repo" && patch -p1 -s < /verif/seeded/$ID/patch.diff ) || { echo "PATCH FAILED"; exit 3; }
 cd /verif
-VERIF_REPO="$D/repo" timeout 1200 bin/vcgo check -p "$PROP" > "$D/out.log" 2>&1; RC=$?
+VERIF_REPO="$D/repo" timeout 1200 "${VCGO_BIN:-bin/vcgo}" check -p "$PROP" > "$D/out.log" 2>&1; RC=$?
 grep -h "VIOLATION\|UNDECIDED\|KNOWN" "$D/out.log" | head -6
 tail -1 "$D/out.log"
 echo "seed=$ID prop=$PROP check_exit=$RC"
